@@ -78,7 +78,7 @@ def run(ids):
     for mid, prop, rel, old, new in CATALOGUE:
         if ids and mid not in ids:
             continue
-        scratch = tempfile.mkdtemp(prefix='pyvc-mut-')
+        scratch = tempfile.mkdtemp(prefix='pyvc-mut-', dir='/var/tmp')
         try:
             dst = os.path.join(scratch, 'repo')
             shutil.copytree(REPO, dst, ignore=shutil.ignore_patterns(
